@@ -292,7 +292,7 @@ def evaluate(ctx, prop, inputs, impl, nontrivial):
 
 
 def distribution(inputs, impl):
-    kinds, outcomes = collections.Counter(), collections.Counter()
+    kinds, outcomes, shape = collections.Counter(), collections.Counter(), collections.Counter()
     for scn in inputs:
         for q in scn["requests"]:
             kinds[q["kind"] + ("-dry" if q.get("dry") else "") + ("-ik" if q.get("ik") else "") + ("-ref" if q.get("ref") else "")] += 1
@@ -300,7 +300,24 @@ def distribution(inputs, impl):
             for r in run["responses"]:
                 outcomes["ok" if r["ok"] else r["err"][:30]] += 1
             outcomes["crashed-in-flight"] += len(run["crashed"])
-    return {"requests": dict(kinds), "outcomes": dict(outcomes)}
+            shape["runs"] += 1
+            pend, tx_over, any_over = [], False, False
+            for t in run["trace"]:
+                if not isinstance(t, dict):
+                    continue
+                if "committed" in t:
+                    istx = t["committed"].get("tx") is not None
+                    tx_over = tx_over or (istx and any(pend))
+                    any_over = any_over or bool(pend)
+                    pend.append(istx)
+                elif t.get("at") == "gate":
+                    pend = pend[t.get("batch", 1):]
+                elif "crash" in t:
+                    pend = []
+                    shape["runs_with_a_restart"] += 1
+            shape["runs_where_an_entry_was_committed_while_another_waited_for_the_store"] += 1 if any_over else 0
+            shape["runs_where_a_transaction_was_committed_while_a_transaction_entry_waited_for_the_store"] += 1 if tx_over else 0
+    return {"requests": dict(kinds), "outcomes": dict(outcomes), "schedules": dict(shape)}
 
 
 def validate_traces(ctx, inputs, impl, components=None):
